@@ -197,8 +197,9 @@ class Analysis:
       for g_text, g_names, g_bound in self.guards:
         if g_text == text:
           extra |= g_bound
-      a, b1, c1 = self.block(s.body, base | extra)
-      e, b2, c2 = self.block(s.orelse, base | self.first_iter.get(id(s), set()))
+      fi = self.first_iter.get(id(s))
+      a, b1, c1 = self.block(s.body, base | extra | (fi[0] if fi and not fi[1] else set()))
+      e, b2, c2 = self.block(s.orelse, base | (fi[0] if fi and fi[1] else set()))
       if a is not None and not s.orelse:
         gained = a - base
         if gained:
@@ -337,12 +338,13 @@ class Analysis:
     for i, st in enumerate(loop.body):
       if any(isinstance(n, (ast.Continue, ast.Break, ast.Return, ast.Raise)) for p in loop.body[:i] for n in ast.walk(p)):
         return
-      if isinstance(st, ast.If) and st.orelse and isinstance(st.test, ast.Compare) and len(st.test.ops) == 1 and isinstance(st.test.ops[0], ast.Eq):
+      if isinstance(st, ast.If) and st.orelse and isinstance(st.test, ast.Compare) and len(st.test.ops) == 1 and isinstance(st.test.ops[0], (ast.Eq, ast.NotEq)):
         l, r = st.test.left, st.test.comparators[0]
         if (isinstance(l, ast.Name) and l.id == v and ast.dump(r) == ast.dump(start)) or (isinstance(r, ast.Name) and r.id == v and ast.dump(l) == ast.dump(start)):
           bound_then = set()
           ok = True
-          for b in st.body:
+          first_branch = st.body if isinstance(st.test.ops[0], ast.Eq) else st.orelse
+          for b in first_branch:
             if isinstance(b, ast.Assign):
               for t in b.targets:
                 _targets(t, bound_then)
@@ -350,7 +352,7 @@ class Analysis:
               ok = False
           deleted = {n.id for p in loop.body for n in ast.walk(p) if isinstance(n, ast.Name) and isinstance(n.ctx, ast.Del)}
           if ok and bound_then and not (bound_then & deleted):
-            self.first_iter[id(st)] = bound_then
+            self.first_iter[id(st)] = (bound_then, isinstance(st.test.ops[0], ast.Eq))
             return
 
   def _store_reads(self, t, have):
